@@ -142,6 +142,10 @@ def compare(impl, model, channels, canon=None):
                 targets = {m for l in il + ml for m in re.findall(r"Despawn@(#\d+|\?\S+)", l)}
                 if len(targets) >= 2:
                     break
+            if canon and op.startswith("setgen ") and il != ml:
+                # the generation hook acts on whichever slot the entity happens to occupy: a different (unspecified) slot
+                # reuse order makes it succeed on one side only; everything downstream is an artefact of the hook
+                break
             for ch in channels + ["exit"]:
                 a = [base_norm(l) for l in il if channel(l) == ch]
                 b = [base_norm(l) for l in ml if channel(l) == ch]
